@@ -775,6 +775,11 @@ impl Router {
                             ackslog.unsuback(unsuback);
                             self.scheduler.untrack(id, filter);
                             self.datalog.remove_waiters_for_id(id, filter);
+                            // a publish earlier in this batch may have moved the
+                            // request from the waiters to `notifications`; it must
+                            // not be tracked again once the batch is done
+                            self.notifications
+                                .retain(|(cid, request)| !(*cid == id && request.filter == *filter));
                             force_ack = true;
                         }
                     }
